@@ -52,6 +52,7 @@ class Generated:
         self.rules_used = set()
         self.opts = {}
         self.auto_stubbed = []
+        self.missing_fns = []
 
 
 def parse_opts(words):
@@ -321,7 +322,16 @@ def generate(unit_dir, mustfail=False, mutate=None, variant=None, template='unit
                 else:
                     raise ExtractError('%s: unknown section %s' % (tpath, k))
             rf = load(rel)
-            a, kw, bo, bc = rf.find_fn(qual)
+            try:
+                a, kw, bo, bc = rf.find_fn(qual)
+            except ExtractError as ex:
+                if ': 0 candidates' in str(ex) and template == 'unit.rs' and not mutate:
+                    # the function under contract no longer exists in the source: the rest of the unit is still checked (its former
+                    # callers now carry the clauses alone); run.py reports the unit undecided unless one of them fails
+                    g.missing_fns.append(o.get('name', qual))
+                    i += 1
+                    continue
+                raise
             raw = rf.text[a:bc + 1]
             rec = FnRec()
             rec.qual, rec.file, rec.raw = o.get('name', qual), rel, raw
